@@ -1,4 +1,5 @@
 import DepLogic.Proofs.MarkerSingles
+import DepLogic.Proofs.FromSpec
 /-
   C02 — marker `&` and `|` are sound.
 
@@ -10,10 +11,16 @@ import DepLogic.Proofs.MarkerSingles
   of the single-marker layer (Proofs/MarkerSingles.lean: the string case table from C19, grouped
   `==`/`!=` atoms, multi-valued `extra`, set-valued `extras`).
 
-  Two facts about Python-version atoms are hypotheses here and are C11's business:
-  `FromSpecOk` (from_specifier renders a specifier as an atom that means it) and `PyMergeOk`
-  (python_version/python_full_version normalisation) – see Properties/C11.lean for what is
-  proved about them and DESIGN.md for what is decided differentially.
+  The theorems take `FromSpecOk` (from_specifier renders a specifier as an atom that means it) and
+  `PyMergeOk` (python_version / python_full_version merge) as parameters; both are THEOREMS
+  (Proofs/FromSpec.lean: `fromSpecOk_of_lex`, `pyMergeOk_of_fromSpec`) given only two
+  character-level facts — `LexPrintOk` (the operand text from_specifier writes is read back as the
+  clause it was written from) and `LexNormOk` (the string surgery of
+  `_normalize_python_version_specifier` computes the structured normalisation) — so the `*_lex`
+  theorems at the end of this file state C02 with no other assumption than those, an environment
+  that binds its variables PEP 508-style (`EnvTotal`), and atoms of the well-defined classes
+  (`Good`).  The restriction to specifiers without post-release bounds (`C06.Nice`, inside
+  `Good`) is forced: without it the property is false of the code (known finding D4a).
 -/
 namespace DepLogic
 namespace C02
@@ -49,6 +56,102 @@ theorem rewriting_sound (env : Env) (he : EnvTotal env) (hF : FromSpecOk env) (h
     (∀ ms, GAllL (Good env) ms → sem env (unionOfList fuel ms) = ms.any (sem env)) :=
   let S := sound_all (singleSound env he hF hP) fuel
   ⟨(S.cnf_ m hm).2, (S.dnf_ m hm).2, fun ms h => (S.multiOf_ ms h).2, fun ms h => (S.unionOfList_ ms h).2⟩
+
+/-! ### with the bridge hypotheses discharged -/
+
+/-- the two character-level assumptions -/
+structure Lex : Prop where
+  print : LexPrintOk
+  norm : LexNormOk
+
+theorem bridge (env : Env) (he : EnvTotal env) (hx : Lex) : FromSpecOk env ∧ PyMergeOk env :=
+  let hF := fromSpecOk_of_lex env he hx.print hx.norm
+  ⟨hF, pyMergeOk_of_fromSpec env he hF⟩
+
+theorem and_sound_lex (env : Env) (he : EnvTotal env) (hx : Lex) (fuel : Nat) (a b : M)
+    (ha : GAll (Good env) a) (hb : GAll (Good env) b) :
+    GAll (Good env) (M.and fuel a b) ∧ sem env (M.and fuel a b) = (sem env a && sem env b) :=
+  and_sound env he (bridge env he hx).1 (bridge env he hx).2 fuel a b ha hb
+
+theorem or_sound_lex (env : Env) (he : EnvTotal env) (hx : Lex) (fuel : Nat) (a b : M)
+    (ha : GAll (Good env) a) (hb : GAll (Good env) b) :
+    GAll (Good env) (M.or fuel a b) ∧ sem env (M.or fuel a b) = (sem env a || sem env b) :=
+  or_sound env he (bridge env he hx).1 (bridge env he hx).2 fuel a b ha hb
+
+/-! ### the hypotheses are satisfiable (non-vacuity) -/
+
+/-- CPython 3.8.5 on Linux 5.10, no extras -/
+def env0 : Env := fun n =>
+  if n = "python_version" then some (.str "3.8")
+  else if n = "python_full_version" then some (.str "3.8.5")
+  else if n = "platform_release" then some (.str "5.10")
+  else if n = "extra" ∨ n = "extras" ∨ n = "dependency_groups" then some (.set [])
+  else some (.str "x")
+
+theorem env0_total : EnvTotal env0 where
+  str := by
+    intro n h1 h2
+    have h2' : n ≠ "extras" ∧ n ≠ "dependency_groups" := by
+      simpa [setNames] using h2
+    unfold env0
+    repeat' split
+    all_goals first | exact ⟨_, rfl⟩ | (rename_i h; rcases h with h | h | h <;> simp_all)
+  ver := by
+    intro n hn
+    simp only [versionLikeNames, List.contains_cons, List.contains_nil, Bool.or_false, Bool.or_eq_true, beq_iff_eq] at hn
+    rcases hn with rfl | rfl | rfl <;> decide
+  verFinal := by
+    intro n v hv
+    by_cases h1 : n = "python_version"
+    · subst h1; have : envVer env0 "python_version" = some { release := [3, 8] } := by decide
+      rw [this] at hv; cases hv; rfl
+    by_cases h2 : n = "python_full_version"
+    · subst h2; have : envVer env0 "python_full_version" = some { release := [3, 8, 5] } := by decide
+      rw [this] at hv; cases hv; rfl
+    by_cases h3 : n = "platform_release"
+    · subst h3; have : envVer env0 "platform_release" = some { release := [5, 10] } := by decide
+      rw [this] at hv; cases hv; rfl
+    exfalso
+    have hx : SpecParse.parseVer (trimS "x") = none := by decide
+    unfold envVer env0 at hv
+    simp only [h1, h2, h3, if_false] at hv
+    by_cases h4 : n = "extra" ∨ n = "extras" ∨ n = "dependency_groups"
+    · simp [h4] at hv
+    · simp [h4, hx] at hv
+  extra := by decide
+  sets := by
+    intro n hn
+    simp only [setNames, List.contains_cons, List.contains_nil, Bool.or_false, Bool.or_eq_true, beq_iff_eq] at hn
+    rcases hn with rfl | rfl <;> exact ⟨[], by decide⟩
+  py := by
+    intro f hf
+    have : envVer env0 "python_full_version" = some (fin [3, 8, 5]) := by decide
+    rw [this] at hf; cases hf
+    exact ⟨3, 8, [5], rfl, by decide⟩
+
+/-- `python_full_version >= "3.8.1"` as the parser builds it -/
+def atomFull : Atom :=
+  ⟨"python_full_version", .ge, "3.8.1", false,
+   .ver (.range { min := some { release := [3, 8, 1] }, incMin := true, text := some ⟨.ge, { release := [3, 8, 1] }, false⟩ })⟩
+
+theorem atomFull_good : GoodAtom env0 atomFull := by
+  refine ⟨by unfold Atom.WF; decide, ?_⟩
+  have h1 : atomFull.name ≠ "extra" := by decide
+  have h2 : setNames.contains atomFull.name = false := by decide
+  have h3 : versionLikeNames.contains atomFull.name = true := by decide
+  simp only [h1, if_false, h2, Bool.false_eq_true, h3, if_true]
+  refine ⟨by unfold Atom.Coherent; decide, ⟨by decide, ?_, ?_⟩, fun h => absurd h (by decide), fun h => absurd h (by decide)⟩
+  · exact Spec.fromClause_textInv ⟨.ge, { release := [3, 8, 1] }, false⟩ _ (by simp [fromClause])
+  · apply Spec.boundsIn_of_allVers
+    simp [Spec.AllVers, Range.AllVers, atomFull, Spec.NoPost]
+
+/-- one instance of each character-level assumption, evaluated in the kernel -/
+example : SpecParse.parseAltsText ((MOp.ofCOp .ge).str ++ fsText "python_full_version" ⟨.ge, { release := [3, 8] }, false⟩)
+    = some [.clauses [fsC "python_full_version" ⟨.ge, { release := [3, 8] }, false⟩]] := by decide
+
+example : normalizePythonVersion ⟨"python_version", .gt, "3.8", false,
+      .ver (.range { min := some { release := [3, 8] }, text := some ⟨.gt, { release := [3, 8] }, false⟩ })⟩
+    = (fromClause (normClause2 .gt 3 8)).map fun sn => .ver ((Spec.range {}).and sn) := by decide
 
 end C02
 end DepLogic
